@@ -338,6 +338,7 @@ func (w *World) newInterp(cfg *Config, sol *Solver, prefix []Decision) *Interp {
 	}
 	in.growExact = cfg.GrowExact
 	in.initSched()
+	in.raceInit()
 	return in
 }
 
